@@ -31,6 +31,9 @@ def run(repo: Repo, chk: Check):
     chk.guarded(r02b, repo, chk)
     chk.guarded(r02c, repo, chk)
     chk.guarded(rule_convention_roles, repo, chk, "R02.d")
+    from .c06 import r06a, r06g
+    chk.guarded(r06a, repo, chk, "R02.d")
+    chk.guarded(r06g, repo, chk, "R02.d")
     chk.guarded(r02e, repo, chk)
 
 
@@ -159,7 +162,7 @@ def _leaves(e):
     return [e]
 
 
-def r02c(repo, chk):
+def r02c(repo, chk, R="R02.c"):
     n = 0
     # can_inline itself:  node and sym_data.is_read == 1
     cp = repo.mod("compile_pass")
@@ -172,7 +175,7 @@ def r02c(repo, chk):
         kinds = [_atom_kind(x) for x in lv]
         okci = isinstance(rets[0].value, ast.BoolOp) and isinstance(rets[0].value.op, ast.And) and \
             any(k[0] == "P" and not k[1] for k in kinds) and all(k[0] == "P" or norm(x) == "self.node" for k, x in zip(kinds, lv))
-    chk.judge("R02.c", "compile_pass:FunctionData.can_inline:is 'called exactly once'", okci,
+    chk.judge(R, "compile_pass:FunctionData.can_inline:is 'called exactly once'", okci,
               f"can_inline returns {norm(rets[0].value) if rets else '?'}, expected node and sym_data.is_read == 1", None, f"{cp.path}:{ci.lineno}")
     for mn in ("generate_code", "compile_pass", "register_assignment", "utils"):
         m = repo.mod(mn)
@@ -208,21 +211,21 @@ def r02c(repo, chk):
                     for x in _leaves(p):
                         if _atom_kind(x)[0] == "P":
                             sib_ok = True
-                chk.judge("R02.c", key, False if not sib_ok else True,
+                chk.judge(R, key, False if not sib_ok else True,
                           "inlining is decided from the option alone, without 'called exactly once': for a function that is called twice this site treats it as "
                           "inlined while the others emit a call", None, where)
                 continue
             if len(recvs) > 1:
-                chk.bad("R02.c", key, f"the predicate mixes the call counts of {sorted(recvs)}", None, where)
+                chk.bad(R, key, f"the predicate mixes the call counts of {sorted(recvs)}", None, where)
                 continue
             table = tuple(_eval_bool(top, {"INL": i, "P": p_}) for i, p_ in itertools.product((False, True), repeat=2))
             AND = (False, False, False, True)
             NAND = (True, True, True, False)
-            chk.judge("R02.c", key, table in (AND, NAND),
+            chk.judge(R, key, table in (AND, NAND),
                       f"truth table over (inline_functions, called once) is {table}: neither 'both' nor its negation, so this site can disagree with the "
                       f"other sites about whether the function is inlined", {"table": table, "receiver": sorted(recvs)}, where)
     if n < 7:
-        raise AnalysisError(f"R02.c: only {n} inlining decision sites found (expected 8)")
+        raise AnalysisError(f"{R}: only {n} inlining decision sites found (expected 8)")
 
 
 # ---------------------------------------------------------------------- R02.e
@@ -253,6 +256,40 @@ def r02e(repo, chk):
         chk.judge("R02.e", "generate_code:compile_function:rewrite jal->j sets the tail-call flag in the same block", same_block and guards_jal,
                   f"the rewrite {norm(rw)} and '{flag} = True' are not in one block (or the rewritten instruction is not verified to be a jal): "
                   f"'j ra' could be dropped without a tail jump, or kept after one", None, f"{g.path}:{rw.lineno} in {cf.qual}")
+    # the rewrite applies only when neither the function being compiled nor the callee is inlined
+    from ..origin import Origin
+    o = Origin(cf)
+    for rw in rewrites:
+        ids = live_ids(cfg, rw)
+        classes = {}
+        for t, p in (guard_atoms(cfg, ids[0]) if ids else []):
+            if not any(isinstance(a, ast.Attribute) and a.attr == "inline_functions" for a in ast.walk(t)):
+                continue
+            # the smallest boolean sub-expressions around the option that also mention a call count
+            for sub in ast.walk(t):
+                if isinstance(sub, ast.BoolOp) and all(_atom_kind(x)[0] is not None for x in _leaves(sub)) and any(_atom_kind(x)[0] == "P" for x in _leaves(sub)):
+                    recv_nodes = []
+                    for x in _leaves(sub):
+                        y = x
+                        while isinstance(y, ast.UnaryOp):
+                            y = y.operand
+                        if isinstance(y, ast.Attribute) and y.attr == "can_inline":
+                            recv_nodes.append(y.value)
+                        elif isinstance(y, ast.Compare):
+                            recv_nodes.append(y.left.value)
+                    table = tuple(_eval_bool(sub, {"INL": i, "P": q}) for i, q in itertools.product((False, True), repeat=2))
+                    holds_nand = (table == (True, True, True, False)) == p and table in ((True, True, True, False), (False, False, False, True))
+                    for rn in recv_nodes:
+                        tg = o.tags(rn, live_ids(cfg, t)[0] if live_ids(cfg, t) else ids[0])
+                        who = "callee" if any(x == "func" or x.startswith("value") for x in tg) else ("self" if any(x.startswith("param:") or x.startswith("call:") for x in tg) or norm(rn) in ("func_data", "sym_data") else "?")
+                        classes[who] = classes.get(who, False) or holds_nand
+        chk.judge("R02.e", "generate_code:compile_function:tail call only if the CALLEE is not inlined", classes.get("callee") is True,
+                  "the rewrite jal->j is not guarded by 'not (inline_functions and callee called once)' for the symbol of the called function: "
+                  "a tail call to a function that gets inlined leaves a 'j' to a label that does not exist / drops the caller's 'j ra'",
+                  {"guards_by_subject": classes}, f"{g.path}:{rw.lineno} in {cf.qual}")
+        chk.judge("R02.e", "generate_code:compile_function:tail call only if the function itself is emitted as a region", classes.get("self") is True,
+                  "the rewrite jal->j is not guarded by 'not (inline_functions and this function called once)': an inlined function's last call "
+                  "would become a jump out of the code it was pasted into", {"guards_by_subject": classes}, f"{g.path}:{rw.lineno} in {cf.qual}")
     for fs in flag_sets:
         par = getattr(fs, "parent", None)
         body = None
